@@ -272,7 +272,7 @@ class Frontend:
 
     # -- types ---------------------------------------------------------------------------------
     def parse_type(self, ann, mi: ModuleInfo | None, depth=0) -> sym.Ty:
-        if ann is None or depth > 8:
+        if ann is None or depth > 48:
             return ANY
         if isinstance(ann, ast.Constant):
             if ann.value is None:
